@@ -2,7 +2,7 @@
    Statements only; models in Ord/Model.v, proofs in Ord/Sorter.v and Ord/Proofs.v.
    [cmpm] is the model of the generated Compare (C03); cmp_le / cmp_ge / cmp_less /
    cmp_greater e t x y say that it returns a value <= 0 / >= 0 / < 0 / > 0 on (x, y). *)
-From Verif Require Import Go.Ty Go.Val Go.Compare Go.CompareSpec Ord.Sorter Ord.Model Ord.Proofs Ord.Support Ord.Total.
+From Verif Require Import Go.Ty Go.Val Go.Compare Go.CompareSpec Ord.Sorter Ord.Model Ord.Proofs Ord.Support Ord.Total Ord.Unique.
 From Coq Require Import Permutation Sorted.
 Open Scope Z_scope.
 
@@ -155,3 +155,13 @@ Theorem C13_minmax2_total : forall e t, env_sup e -> cmp_sup false t = true -> f
   (exists r, min2_model e t a b = Ok r) /\ (exists r, max2_model e t a b = Ok r).
 Proof. exact minmax2_total. Qed.
 Print Assumptions C13_minmax2_total.
+
+(* the sorted arrangement is unique up to the order's equivalence: any two sorters that meet the
+   contract (the real sort.Slice, the insertion sort of the evaluator) return lists that agree
+   position by position up to Compare = 0 (which is structural equality, C03) *)
+Theorem C13_sort_unique_up_to_equiv : forall s1 s2 : @sorter val, sorter_ok s1 -> sorter_ok s2 ->
+  forall e t l l1 l2, Forall (fun x => has_type e t x = true) l ->
+  sort_list s1 e t l = Ok l1 -> sort_list s2 e t l = Ok l2 ->
+  Forall2 (fun a b => cmpm e t a b = Ok 0) l1 l2.
+Proof. exact sort_unique_up_to_equiv. Qed.
+Print Assumptions C13_sort_unique_up_to_equiv.
